@@ -108,6 +108,17 @@ reg(
     "Trusted: the 20-line HNW implementation in pdv/props/c18.py. Vector fields that are themselves non-finite at u0 are excluded.",
 )
 
+reg(
+    "C19",
+    "recording while_loop around the real Gauss-Newton iteration: every iterate logged; termination class, statistics truthfulness, range-space optimality and affine exactness decided from the log",
+    "lstsq_constrained_gauss_newton (directly, through taylor_point_maximum_a_posteriori, and as linearisation point of one "
+    "dense filter update) runs on affine and mildly nonlinear polynomial constraints with regular, singular and zero covariance "
+    "factors, tolerances 1e-12..1e-4 and budgets 1..50. The recorded iterates decide: reported iters = loop bodies executed, "
+    "final_constraint = g(x), final_increment = last difference; feasible / budget-exhausted / early-stop classification; "
+    "displacement in range(L L^T J^T) up to the last increment; affine => conditional mean after one iteration.",
+    "Trusted: numpy pinv/lstsq for the affine reference. Early stops on instances that are infeasible in range are the known finding D10.",
+)
+
 NOT_BUILT_REASON = "check under construction in this session; not yet registered"
 
 
